@@ -117,3 +117,87 @@ Proof.
   rewrite findLSB_ctz by assumption. destruct (findLSB_all sg w x Hw HT) as [_ F]. specialize (F Hx). cbv zeta in F. rewrite findLSB_ctz in F by assumption.
   replace (ctz (Z.to_nat w) x <? w) with true by (symmetry; apply Z.ltb_lt; lia). reflexivity.
 Qed.
+(* gtx highestBitValue: the loop clears the lowest set bit until nothing is left and returns the last bit cleared = 2^log2 x, for every positive value *)
+Lemma cT_of_umod sg w z v : width w -> umod w z = v -> 0 <= v <= maxT sg w -> cT sg w z = v.
+Proof.
+  intros Hw E Hv. pose proof (width_pos w Hw) as Wp. unfold cT, norm. rewrite E. cbv zeta.
+  assert (P : 2 ^ w = 2 * 2 ^ (w - 1)) by (replace w with (Z.succ (w - 1)) at 1 by lia; apply Z.pow_succ_r; lia).
+  destruct sg; cbn [andb]; [|reflexivity]. unfold maxT in Hv. replace (2 ^ (w - 1) <=? v) with false by (symmetry; apply Z.leb_gt; lia). reflexivity.
+Qed.
+Lemma umod_small w v : 0 < w -> 0 <= v < 2 ^ w -> umod w v = v.
+Proof. intros Hw Hv. rewrite umod_mod by lia. apply Z.mod_small, Hv. Qed.
+Lemma maxT_lt sg w : 0 < w -> maxT sg w < 2 ^ w.
+Proof. intros Hw. unfold maxT. assert (P : 2 ^ w = 2 * 2 ^ (w - 1)) by (replace w with (Z.succ (w - 1)) at 1 by lia; apply Z.pow_succ_r; lia). pose proof (Z.pow_pos_nonneg 2 (w - 1) ltac:(lia) ltac:(lia)). destruct sg; lia. Qed.
+Lemma hbv_step sg w tmp : width w -> 0 < tmp <= maxT sg w ->
+  let t := ctz (Z.to_nat w) tmp in
+  0 <= t < w /\ Z.testbit tmp t = true /\ cT sg w (Z.land tmp (ar sg w (ar sg w (Z.lnot tmp) + 1))) = 2 ^ t /\ cT sg w (Z.land tmp (ar sg w (Z.lnot (2 ^ t)))) = tmp - 2 ^ t.
+Proof.
+  intros Hw Ht. pose proof (width_pos w Hw) as Wp. pose proof (maxT_lt sg w Wp) as Mx. cbv zeta.
+  destruct (lowbit_value (Z.to_nat w) tmp) as (Lv & Lt & Tb); [rewrite Z2Nat.id by lia; lia|]. rewrite Z2Nat.id in Lt by lia. set (t := ctz (Z.to_nat w) tmp) in *.
+  pose proof (tb_ge_pow2 tmp t ltac:(lia) ltac:(lia) Tb) as Ge. pose proof (Z.pow_pos_nonneg 2 t ltac:(lia) ltac:(lia)) as Pp.
+  split; [exact Lt|]. split; [exact Tb|]. split.
+  - apply cT_of_umod; [exact Hw | | lia]. rewrite umod_land, umod_ar by assumption. rewrite umod_add_l, umod_ar, <- umod_add_l by assumption. rewrite <- umod_land.
+    replace (Z.lnot tmp + 1) with (- tmp) by (unfold Z.lnot; lia). rewrite Lv. apply umod_small; lia.
+  - apply cT_of_umod; [exact Hw | | lia]. rewrite umod_land, umod_ar by assumption. rewrite <- umod_land. rewrite clear_bit by (try exact Tb; lia). apply umod_small; lia.
+Qed.
+Lemma log2_clear tmp t : 0 < tmp -> 0 <= t -> Z.testbit tmp t = true -> tmp <> 2 ^ t -> (forall i, 0 <= i < t -> Z.testbit tmp i = false) -> Z.log2 (tmp - 2 ^ t) = Z.log2 tmp.
+Proof.
+  intros Hp Ht Tb Hne Low. pose proof (Z.log2_spec tmp Hp) as [L1 L2]. set (L := Z.log2 tmp) in *. pose proof (Z.log2_nonneg tmp) as Ln. fold L in Ln.
+  pose proof (tb_ge_pow2 tmp t ltac:(lia) Ht Tb) as Ge.
+  assert (TL : Z.testbit tmp L = true) by (apply Z.bit_log2; exact Hp).
+  assert (HtL : t < L).
+  { destruct (Z_lt_le_dec t L) as [|Hge]; [assumption|]. exfalso. assert (t = L) by (apply Z.le_antisymm; [|exact Hge]; apply Z.log2_le_pow2 in Ge; [exact Ge | lia]). subst t.
+    (* tmp has only bit L below 2^(L+1) and nothing below L: tmp = 2^L *) apply Hne. apply Z.bits_inj'. intros i Hi. rewrite Z.pow2_bits_eqb by lia.
+    destruct (Z.eqb_spec L i) as [<-|Hn]; [exact TL|]. destruct (Z_lt_le_dec i L); [apply Low; lia|]. apply Z.bits_above_log2; [lia | fold L; lia]. }
+  (* tmp - 2^L still has bit t, so it is >= 2^t *)
+  assert (G2 : 2 ^ t <= tmp - 2 ^ L).
+  { rewrite <- (clear_bit tmp L Ln TL). apply tb_ge_pow2; [apply Z.land_nonneg; lia | exact Ht |]. rewrite Z.land_spec, Tb, Z.lnot_spec by lia. rewrite Z.pow2_bits_false by lia. reflexivity. }
+  apply Z.log2_unique; [exact Ln|]. fold L. rewrite Z.pow_succ_r in * by lia. lia.
+Qed.
+Theorem hbv_loop_ok sg w : width w -> forall fuel tmp res, 0 < tmp <= maxT sg w -> pc (Z.to_nat w) tmp < Z.of_nat fuel -> hbv_loop sg w fuel tmp res = 2 ^ Z.log2 tmp.
+Proof.
+  intros Hw. pose proof (width_pos w Hw) as Wp. pose proof (maxT_lt sg w Wp) as Mx. induction fuel as [|k IH]; intros tmp res Ht Hp.
+  - exfalso. pose proof (pc_pos (Z.to_nat w) tmp) as P1. rewrite Z2Nat.id in P1 by lia. specialize (P1 ltac:(lia)). cbn in Hp. lia.
+  - cbn [hbv_loop]. replace (tmp =? 0) with false by (symmetry; apply Z.eqb_neq; lia). cbv zeta.
+    destruct (hbv_step sg w tmp Hw Ht) as (Tr & Tb & R & N). cbv zeta in *. set (t := ctz (Z.to_nat w) tmp) in *. rewrite R, N.
+    pose proof (tb_ge_pow2 tmp t ltac:(lia) ltac:(lia) Tb) as Ge. pose proof (Z.pow_pos_nonneg 2 t ltac:(lia) ltac:(lia)) as Pp.
+    assert (PC : pc (Z.to_nat w) (tmp - 2 ^ t) = pc (Z.to_nat w) tmp - 1) by (apply pc_clear; [rewrite Z2Nat.id by lia; lia | exact Tb]).
+    destruct (Z.eq_dec tmp (2 ^ t)) as [E|E].
+    + replace (tmp - 2 ^ t) with 0 by lia. destruct k as [|j]; [exfalso; pose proof (pc_pos (Z.to_nat w) tmp) as P1; rewrite Z2Nat.id in P1 by lia; specialize (P1 ltac:(lia)); lia|].
+      assert (LL : Z.log2 tmp = t) by (rewrite E; apply Z.log2_pow2; lia). rewrite LL. cbn [hbv_loop]. rewrite Z.eqb_refl. reflexivity.
+    + rewrite IH; [| lia | lia]. f_equal. apply log2_clear; try lia; try exact Tb. intros i Hi. destruct (ctz_spec (Z.to_nat w) tmp) as (_ & Lo & _). apply Lo. exact Hi.
+Qed.
+Theorem highestBitValue_pos sg w x : width w -> 0 < x <= maxT sg w -> highestBitValue sg w x = floor_pow2 x.
+Proof.
+  intros Hw Hx. pose proof (width_pos w Hw) as Wp. unfold highestBitValue, floor_pow2. apply hbv_loop_ok; [exact Hw | exact Hx |].
+  pose proof (pc_bound (Z.to_nat w) x) as B. rewrite Z2Nat.id in B by lia. assert (W64 : w <= 64) by (destruct Hw as [-> | [-> | [-> | ->]]]; lia). change (Z.of_nat 65) with 65. lia.
+Qed.
+Lemma pow2_cases x : 0 < x -> let k := Z.log2 x in (2 ^ k = x /\ Z.log2_up x = k) \/ (2 ^ k < x < 2 * 2 ^ k /\ Z.log2_up x = Z.succ k).
+Proof.
+  intros Hx. cbv zeta. pose proof (Z.log2_spec x Hx) as [L1 L2]. pose proof (Z.log2_nonneg x) as Ln. rewrite Z.pow_succ_r in L2 by lia.
+  destruct (Z.eq_dec (2 ^ Z.log2 x) x) as [E|E]; [left; split; [exact E|]; rewrite <- E at 1; apply Z.log2_up_pow2; lia|].
+  right. split; [lia|]. apply Z.log2_up_unique; [lia|]. rewrite Z.pred_succ, Z.pow_succ_r by lia. lia.
+Qed.
+Theorem powerOfTwoBelow_pos sg w x : width w -> 0 < x <= maxT sg w -> powerOfTwoBelow sg w x = floor_pow2 x.
+Proof.
+  intros Hw Hx. unfold powerOfTwoBelow. destruct (isPowerOfTwo_pos sg w x Hw Hx) as [E _]. rewrite E. unfold is_pow2, floor_pow2. replace (0 <? x) with true by (symmetry; apply Z.ltb_lt; lia). cbn [andb].
+  destruct (Z.eqb_spec (2 ^ Z.log2 x) x) as [H|H]; [symmetry; exact H | apply highestBitValue_pos; assumption].
+Qed.
+Theorem powerOfTwoAbove_pos sg w x : width w -> 0 < x <= maxT sg w -> ceil_pow2 x <= maxT sg w -> powerOfTwoAbove sg w x = ceil_pow2 x.
+Proof.
+  intros Hw Hx Hc. unfold powerOfTwoAbove. destruct (isPowerOfTwo_pos sg w x Hw Hx) as [E _]. rewrite E. unfold is_pow2, ceil_pow2 in *. replace (0 <? x) with true by (symmetry; apply Z.ltb_lt; lia). cbn [andb].
+  destruct (pow2_cases x ltac:(lia)) as [[P LU] | [P LU]]; cbv zeta in *; rewrite LU in *.
+  - rewrite P, Z.eqb_refl. reflexivity.
+  - replace (2 ^ Z.log2 x =? x) with false by (symmetry; apply Z.eqb_neq; lia). rewrite highestBitValue_pos by assumption. unfold floor_pow2. rewrite Z.pow_succ_r in * by apply Z.log2_nonneg.
+    rewrite (Z.mul_comm (2 ^ Z.log2 x) 2). apply cT_id; [exact Hw|]. pose proof (Z.pow_pos_nonneg 2 (Z.log2 x) ltac:(lia) (Z.log2_nonneg x)). lia.
+Qed.
+Theorem powerOfTwoNearest_pos sg w x : width w -> 0 < x <= maxT sg w -> ceil_pow2 x <= maxT sg w -> nearest_pow2 x (powerOfTwoNearest sg w x) = true.
+Proof.
+  intros Hw Hx Hc. unfold powerOfTwoNearest, nearest_pow2. cbv zeta. destruct (isPowerOfTwo_pos sg w x Hw Hx) as [E _]. rewrite E. unfold is_pow2, floor_pow2, ceil_pow2 in *.
+  replace (0 <? x) with true by (symmetry; apply Z.ltb_lt; lia). cbn [andb]. pose proof (Z.pow_pos_nonneg 2 (Z.log2 x) ltac:(lia) (Z.log2_nonneg x)) as Pp.
+  destruct (pow2_cases x ltac:(lia)) as [[P LU] | [P LU]]; cbv zeta in *; rewrite LU in *.
+  - rewrite P, Z.eqb_refl. apply orb_true_iff. left. apply andb_true_iff. split; [apply Z.eqb_eq; reflexivity | apply Z.leb_le; lia].
+  - replace (2 ^ Z.log2 x =? x) with false by (symmetry; apply Z.eqb_neq; lia). rewrite highestBitValue_pos by assumption. unfold floor_pow2. rewrite Z.pow_succ_r in * by apply Z.log2_nonneg.
+    rewrite (Z.mul_comm (2 ^ Z.log2 x) 2). rewrite (cT_id sg w (2 * 2 ^ Z.log2 x)) by (try assumption; lia). rewrite !ar_id by (try assumption; lia).
+    destruct (Z.ltb_spec (2 * 2 ^ Z.log2 x - x) (x - 2 ^ Z.log2 x)) as [C|C]; apply orb_true_iff; [right | left]; rewrite Z.eqb_refl; cbn [andb]; apply Z.leb_le; lia.
+Qed.
